@@ -25,8 +25,9 @@ def run (c : Compressor) : Op → Obs
     let t := encodeStream vs
     let d (w : Option (List Nat)) := w.map decodeWords
     .s8b i j t [d i, d i, d j, d j, d t, d t]
-  | .codec v => .codec (rtOf (valsEncodeS c v) (valsEncodeB c v) (valsDecode c v))
-  | .time ts => .time (rtOf (timeEncodeS ts) (timeEncodeB ts) timeDecode)
+  -- the model's batch encoders have no buffer parameter: a reused buffer changes nothing
+  | .codec v => let r := rtOf (valsEncodeS c v) (valsEncodeB c v) (valsDecode c v); .codec r r.bs r.bb
+  | .time ts => let r := rtOf (timeEncodeS ts) (timeEncodeB ts) timeDecode; .time r r.bs r.bb
   | .block ts v =>
     let s := blockEncodeS c ts v
     let b := blockEncodeB c ts v
